@@ -333,7 +333,7 @@ theorem write_crash {s : State} {a : Nat} {ess : List (List Entry)} {ec : List E
     fun bs => ⟨r.chain, r.cur.junk bs, r.curSeq, rfl, r.fidCur, r.fids, r.np, r.mtOK, r.aPos⟩
   have rS := r.write re hok hlen hend hidx
   intro x hx
-  simp only [crashStates, List.mem_cons, List.mem_append, List.mem_singleton] at hx
+  simp only [crashStates, List.mem_cons, List.mem_append, List.mem_singleton, List.mem_nil_iff, or_false] at hx
   rcases hx with rfl | hx | rfl | hx | rfl
   · exact ⟨Or.inl (LogRepW.dirRep r), rfl⟩
   · obtain ⟨k, _, hk⟩ := mem_safeTorn_iff.mp hx
@@ -355,5 +355,318 @@ theorem write_crash {s : State} {a : Nat} {ess : List (List Entry)} {ec : List E
   · refine ⟨Or.inr ?_, rfl⟩
     simp only [applyMut]
     exact (LogRepW.dirRep rS).of_sameDir ⟨rfl, rfl, rfl, rfl⟩
+
+/-- the optional rotation before an entry is written, with its crash states -/
+theorem pre_crash (hp : p.WF) {s : State} {a : Nat} {ess : List (List Entry)} {ec : List Entry}
+    (r : LogRepW p s a ess ec) (re : Entry) (hok : re.OK) (hfit : re.Fits p) :
+    ∃ s1 ess1 ec1 pre,
+      (if needRotate p s.next ((p.dataOff + total ec : Nat) : Int) re.data.size then rotateMuts p s (p.dataOff + total ec) else []) = pre ∧
+      (if needRotate p s.next ((p.dataOff + total ec : Nat) : Int) re.data.size then
+          (({ rotate p s (p.dataOff + total ec) with next := 0 } : State), p.dataOff)
+        else (s, p.dataOff + total ec)) = (s1, p.dataOff + total ec1) ∧
+      LogRepW p s1 a ess1 ec1 ∧ ess1.flatten ++ ec1 = ess.flatten ++ ec ∧ ec1.length < p.cap ∧
+      p.dataOff + total ec1 + 4 + re.data.size < 18446744073709551616 ∧
+      (∀ x ∈ crashStates p s pre, ∃ ess' ec', DirRep p x a ess' ec' ∧ ess'.flatten ++ ec' = ess.flatten ++ ec ∧ x.mt = s.mt) ∧
+      SameDir (applyMuts p s pre) s1 ∧ s1.mt = s.mt := by
+  rw [r.next_eq, needRotate_nat]
+  by_cases hrot : (decide (ec.length ≥ p.cap) || decide (p.dataOff + total ec + 4 + re.data.size > p.maxSize)) = true
+  · have hne : ec ≠ [] := by
+      intro h; subst h
+      have h1 := hp.cap_pos
+      have h2 : p.dataOff + 4 + re.data.size ≤ p.maxSize := hfit
+      simp [total] at hrot; omega
+    obtain ⟨hc, hsd⟩ := rotate_crash hp r hne
+    refine ⟨_, ess ++ [ec], [], rotateMuts p s (p.dataOff + total ec), by rw [if_pos hrot], ?_, r.rotate_ok hp hne, by simp,
+      by have := hp.cap_pos; simp; omega, ?_, ?_, hsd, rfl⟩
+    · rw [if_pos hrot]; simp [total]
+    · have := hp.dataOff_lt; have := hok.size_lt; simp [total]; omega
+    · intro x hx
+      obtain ⟨h1 | h1, h2⟩ := hc x hx
+      · exact ⟨ess, ec, h1, rfl, h2⟩
+      · exact ⟨ess ++ [ec], [], h1, by simp, h2⟩
+  · refine ⟨s, ess, ec, [], by rw [if_neg hrot], by rw [if_neg hrot], r, rfl, ?_, ?_, ?_, SameDir.refl s, rfl⟩
+    · simp at hrot; omega
+    · have := hp.maxSize_lt; simp at hrot; omega
+    · intro x hx
+      simp only [crashStates, List.mem_singleton] at hx
+      subst hx
+      exact ⟨ess, ec, LogRepW.dirRep r, rfl, rfl⟩
+
+/-- every crash state of the write loop holds the entries before the loop plus a prefix of the
+new ones; and the mutation list, applied completely, is `addLoop` -/
+theorem loop_crash (hp : p.WF) {a : Nat} :
+    ∀ (new : List Entry) (s : State) (ess : List (List Entry)) (ec : List Entry),
+      LogRepW p s a ess ec → (∀ e ∈ new, e.OK ∧ e.Fits p) → Seq (a + ess.flatten.length + ec.length) new →
+      (∀ x ∈ crashStates p s (addLoopMuts p new s (p.dataOff + total ec)),
+        ∃ j, j ≤ new.length ∧ ∃ ess' ec', DirRep p x a ess' ec' ∧ ess'.flatten ++ ec' = ess.flatten ++ ec ++ new.take j ∧
+          x.mt = s.mt) ∧
+      SameDir (applyMuts p s (addLoopMuts p new s (p.dataOff + total ec))) (addLoop p new s (p.dataOff + total ec)) := by
+  intro new
+  induction new with
+  | nil =>
+    intro s ess ec r _ _
+    refine ⟨?_, SameDir.refl s⟩
+    intro x hx
+    simp only [addLoopMuts, crashStates, List.mem_singleton] at hx
+    subst hx
+    exact ⟨0, Nat.le_refl _, ess, ec, LogRepW.dirRep r, by simp, rfl⟩
+  | cons re rest ih =>
+    intro s ess ec r hok hseq
+    have hre := hok re (by simp)
+    have hidx : re.index = a + ess.flatten.length + ec.length := by
+      have := hseq 0 (by simp)
+      simp only [List.getElem_cons_zero] at this; omega
+    obtain ⟨s1, ess1, ec1, pre, hpre, heq, r1, hall, hlen, hend, hcpre, hsdpre, hmt1⟩ := pre_crash hp r re hre.1 hre.2
+    have hfl : ess1.flatten.length + ec1.length = ess.flatten.length + ec.length := by
+      have := congrArg List.length hall; simpa using this
+    have r2 := r1.write re hre.1 hlen hend (by omega)
+    have hno : (nextOffset ((p.dataOff + total ec1 : Nat) : Int) (re.data.size : Int)).toNat = p.dataOff + total (ec1 ++ [re]) := by
+      rw [nextOffset_nat, total_append]; simp [total, recLen]; omega
+    obtain ⟨ihc, ihs⟩ := ih _ ess1 (ec1 ++ [re]) r2 (fun e he => hok e (by simp [he]))
+      (by
+        have := hseq.tail
+        simp only [List.length_append, List.length_cons, List.length_nil]
+        rw [show a + ess1.flatten.length + (ec1.length + (0 + 1)) = a + ess.flatten.length + ec.length + 1 by omega]
+        exact this)
+    have hw := write_crash r1 re hre.1 hlen hend (by omega)
+    simp only [addLoopMuts, addLoop]
+    rw [hpre, heq]
+    simp only
+    rw [hno]
+    -- the state after the two writes of this entry, as the mutation list produces it
+    have hsd2 : SameDir (applyMuts p s1 [.pay s1.current.fid (p.dataOff + total ec1) re.data,
+        .slot s1.current.fid s1.next ⟨re.term, re.index, re.typ, p.dataOff + total ec1⟩])
+        { s1 with current := (setSlot (writePayload p s1.current (p.dataOff + total ec1) re.data) s1.next (Slot.mk re.term re.index re.typ (p.dataOff + total ec1))), next := s1.next + 1 } := ⟨rfl, rfl, rfl, rfl⟩
+    constructor
+    · intro x hx
+      rw [List.append_assoc] at hx
+      rcases mem_crashStates_append hx with hx | hx
+      · obtain ⟨ess', ec', h1, h2, h3⟩ := hcpre x hx
+        exact ⟨0, Nat.zero_le _, ess', ec', h1, by simpa using h2, h3⟩
+      · obtain ⟨y, hy, hxy⟩ := mem_crashStates_sameDir hsdpre hx
+        rcases mem_crashStates_append hy with hy | hy
+        · obtain ⟨h1 | h1, h2⟩ := hw y hy
+          · exact ⟨0, Nat.zero_le _, ess1, ec1, h1.of_sameDir hxy, by simpa using hall, by rw [hxy.2.2.1, h2, hmt1]⟩
+          · refine ⟨1, by simp, ess1, ec1 ++ [re], h1.of_sameDir hxy, ?_, by rw [hxy.2.2.1, h2, hmt1]⟩
+            rw [← List.append_assoc, hall]; simp
+        · obtain ⟨z, hz, hyz⟩ := mem_crashStates_sameDir hsd2 hy
+          obtain ⟨j, hj, ess', ec', h1, h2, h3⟩ := ihc z hz
+          refine ⟨j + 1, by simp; omega, ess', ec', (h1.of_sameDir hyz).of_sameDir hxy, ?_, ?_⟩
+          · rw [h2, ← List.append_assoc, hall]; simp
+          · rw [hxy.2.2.1, hyz.2.2.1, h3, hmt1]
+    · rw [List.append_assoc, applyMuts_append, applyMuts_append]
+      exact ((applyMuts_sameDir ((applyMuts_sameDir hsdpre _).trans hsd2) _).trans ihs)
+
+/-! ### crash states of the conflict handling -/
+
+/-- the directory after the `i` newest files were removed (`i ≥ 1`: the current file is gone,
+rotated file `n - i` is the last one) -/
+def dropNewest (s : State) (i : Nat) : State :=
+  if i = 0 then s
+  else { s with files := s.files.take (s.files.length - i), current := s.files.getD (s.files.length - i) default }
+
+theorem applyMut_rmLast_dropNewest (s : State) (i fid : Nat) (hi : i < s.files.length) :
+    applyMut p (dropNewest s i) (.rmLast fid) = dropNewest s (i + 1) := by
+  have hn : s.files.length - (i + 1) < s.files.length := by omega
+  have hget : s.files.getD (s.files.length - (i + 1)) default = s.files[s.files.length - (i + 1)] := by
+    rw [List.getD_eq_getElem?_getD, List.getElem?_eq_getElem hn]; rfl
+  by_cases h0 : i = 0
+  · subst h0
+    have hne : s.files ≠ [] := by intro h; rw [h] at hi; simp at hi
+    simp only [dropNewest, if_true, applyMut, Nat.zero_add, if_false, Nat.one_ne_zero]
+    rw [List.getLast?_eq_some_getLast hne]
+    simp only
+    rw [hget, List.dropLast_eq_take, List.getLast_eq_getElem]
+  · have hne : s.files.take (s.files.length - i) ≠ [] := by
+      intro h
+      have := congrArg List.length h
+      simp only [List.length_take, List.length_nil] at this
+      omega
+    simp only [dropNewest, h0, if_false, applyMut, Nat.add_eq_zero_iff, Nat.one_ne_zero, and_false]
+    rw [List.getLast?_eq_some_getLast hne]
+    simp only
+    rw [hget, List.dropLast_eq_take, List.getLast_eq_getElem]
+    simp only [List.length_take, List.take_take, List.getElem_take]
+    have e1 : min (s.files.length - i) s.files.length = s.files.length - i := by omega
+    simp only [e1]
+    have e2 : s.files.length - i - 1 = s.files.length - (i + 1) := by omega
+    simp only [e2]
+    have e3 : min (s.files.length - (i + 1)) (s.files.length - i) = s.files.length - (i + 1) := by omega
+    rw [e3]
+
+theorem applyMuts_rmLast (s : State) : ∀ (l : List LogFile) (i : Nat), i + l.length ≤ s.files.length →
+    applyMuts p (dropNewest s i) (l.map (fun f => Mut.rmLast f.fid)) = dropNewest s (i + l.length) := by
+  intro l
+  induction l with
+  | nil => intro i _; rfl
+  | cons f l ih =>
+    intro i h
+    simp only [List.length_cons] at h
+    simp only [List.map_cons, applyMuts, List.foldl_cons]
+    rw [applyMut_rmLast_dropNewest s i f.fid (by omega)]
+    have := ih (i + 1) (by omega)
+    simp only [applyMuts] at this
+    rw [this, List.length_cons]
+    congr 1; omega
+
+/-- crash states of a list of removals: the directories after 0, 1, 2, … removals -/
+theorem mem_crashStates_rmLast (s : State) (rest : List Mut) : ∀ (l : List LogFile) (i : Nat), i + l.length ≤ s.files.length →
+    ∀ x ∈ crashStates p (dropNewest s i) (l.map (fun f => Mut.rmLast f.fid) ++ rest),
+      (∃ k, i ≤ k ∧ k ≤ i + l.length ∧ x = dropNewest s k) ∨ x ∈ crashStates p (dropNewest s (i + l.length)) rest := by
+  intro l
+  induction l with
+  | nil => intro i _ x hx; right; simpa using hx
+  | cons f l ih =>
+    intro i h x hx
+    simp only [List.length_cons] at h
+    simp only [List.map_cons, List.cons_append, crashStates, safeTorn, List.nil_append, List.mem_cons] at hx
+    rcases hx with rfl | hx
+    · exact Or.inl ⟨i, Nat.le_refl _, by omega, rfl⟩
+    · rw [applyMut_rmLast_dropNewest s i f.fid (by omega)] at hx
+      rcases ih (i + 1) (by omega) x hx with ⟨k, h1, h2, h3⟩ | h'
+      · exact Or.inl ⟨k, by omega, by simp only [List.length_cons]; omega, h3⟩
+      · right
+        rw [List.length_cons, show i + (l.length + 1) = i + 1 + l.length by omega]
+        exact h'
+
+theorem LogRep.dropNewest_rep {s : State} {a : Nat} {ess : List (List Entry)} {ec : List Entry} (r : LogRep p s a ess ec)
+    (k : Nat) (hk1 : 1 ≤ k) (hk2 : k ≤ ess.length) :
+    DirRep p (dropNewest s k) a (ess.take (ess.length - k)) (ess[ess.length - k]'(by omega)) := by
+  have hm : ess.length - k < ess.length := by omega
+  have h := (r.chain.lastAsCurrent (ess.length - k) hm s.mt r.mtOK r.fids r.aPos).dirRep
+  apply h.of_sameDir
+  have hk0 : k ≠ 0 := by omega
+  simp only [dropNewest, hk0, if_false, r.chain.len]
+  exact ⟨rfl, rfl, rfl, r.np⟩
+
+theorem dropNewest_mt (s : State) (k : Nat) : (dropNewest s k).mt = s.mt := by
+  unfold dropNewest; split <;> rfl
+
+/-- conflict handling, crash states: the old log, cut at a file boundary behind the conflict
+index or exactly at it; applied completely the mutation list is `conflict` -/
+theorem conflict_crash (hp : p.WF) {s : State} {a : Nat} {ess : List (List Entry)} {ec : List Entry}
+    (r : LogRep p s a ess ec) (idx : Nat) (hne : ess.flatten ++ ec ≠ [])
+    (h1 : a ≤ idx) (h2 : idx ≤ a + (ess.flatten ++ ec).length) :
+    (∀ x ∈ crashStates p s (conflictMuts p s idx),
+        ∃ M, idx - a ≤ M ∧ ∃ ess' ec', DirRep p x a ess' ec' ∧ ess'.flatten ++ ec' = (ess.flatten ++ ec).take M ∧ x.mt = s.mt) ∧
+      SameDir (applyMuts p s (conflictMuts p s idx)) (conflict p s idx) := by
+  have hec : ec ≠ [] := fun h => hne (r.all_nil_iff.mpr h)
+  obtain ⟨essF, ecF, rF, hallF⟩ := r.conflict_ok hp idx hne h1 h2
+  -- the state before: the whole old log
+  have hold : ∃ M, idx - a ≤ M ∧ ∃ ess' ec', DirRep p s a ess' ec' ∧ ess'.flatten ++ ec' = (ess.flatten ++ ec).take M ∧ s.mt = s.mt :=
+    ⟨(ess.flatten ++ ec).length, by omega, ess, ec, r.dirRep, (List.take_length).symm, rfl⟩
+  -- the state after, once it is known to be `conflict` up to `next`
+  have hfin : ∀ x, SameDir x (conflict p s idx) →
+      ∃ M, idx - a ≤ M ∧ ∃ ess' ec', DirRep p x a ess' ec' ∧ ess'.flatten ++ ec' = (ess.flatten ++ ec).take M ∧ x.mt = s.mt :=
+    fun x hx => ⟨idx - a, Nat.le_refl _, essF, ecF, (LogRepW.dirRep rF).of_sameDir hx, hallF, by rw [hx.2.2.1, conflict_mt]⟩
+  by_cases hcur : curStart a ess ≤ idx
+  · have hsg := r.slotGe_cur hec idx hcur
+    by_cases hin : idx < curStart a ess + ec.length
+    · rw [if_pos hin] at hsg
+      have hk : idx - curStart a ess < ec.length := by omega
+      have hnx : s.next > idx - curStart a ess := by rw [r.next_eq]; exact hk
+      obtain ⟨hc1, hc2⟩ := clearCur_nat p s.next (idx - curStart a ess) (by omega)
+      have hc1' : (decide (clearCurLen p ↑s.next ↑(idx - curStart a ess) < 0) ||
+          (clearCurOff p ↑s.next ↑(idx - curStart a ess) != ((entrySize * (idx - curStart a ess) : Nat) : Int))) = false := by
+        simp only [Bool.or_eq_false_iff, decide_eq_false_iff_not, bne_eq_false_iff_eq]
+        constructor
+        · intro h; exact hc1 (Or.inl h)
+        · exact Classical.byContradiction fun h => hc1 (Or.inr h)
+      have hpush : ((entrySize : Int) * ((idx - curStart a ess : Nat) : Int)) = ((entrySize * (idx - curStart a ess) : Nat) : Int) := by
+        push_cast; rfl
+      have hmuts : conflictMuts p s idx = [.zero s.current.fid (idx - curStart a ess) (clearCurLen p ↑s.next ↑(idx - curStart a ess)).toNat] := by
+        simp only [conflictMuts, hsg, hnx, if_true]
+        rw [hpush, hc1']; simp
+      have hcf : SameDir (applyMuts p s (conflictMuts p s idx)) (conflict p s idx) := by
+        rw [hmuts]
+        simp only [applyMuts, List.foldl_cons, List.foldl_nil, applyMut, conflict, hsg, hnx, if_true]
+        rw [hpush, hc1']
+        exact ⟨rfl, rfl, rfl, rfl⟩
+      refine ⟨?_, hcf⟩
+      intro x hx
+      rw [hmuts] at hx hcf
+      simp only [crashStates, safeTorn, List.nil_append, List.mem_cons, List.mem_nil_iff, or_false] at hx
+      rcases hx with rfl | rfl
+      · exact hold
+      · exact hfin _ (by simpa only [applyMuts, List.foldl_cons, List.foldl_nil] using hcf)
+    · rw [if_neg hin] at hsg
+      have hnx : ¬ s.next > ec.length := by rw [r.next_eq]; omega
+      have hmuts : conflictMuts p s idx = [] := by simp only [conflictMuts, hsg, hnx, if_false]
+      have hcf : SameDir (applyMuts p s (conflictMuts p s idx)) (conflict p s idx) := by
+        rw [hmuts]
+        simp only [applyMuts, List.foldl_nil, conflict, hsg, hnx, if_false]
+        exact ⟨rfl, rfl, rfl, rfl⟩
+      refine ⟨?_, hcf⟩
+      intro x hx
+      rw [hmuts] at hx
+      simp only [crashStates, List.mem_singleton] at hx
+      subst hx; exact hold
+  · have hlt : idx < a + ess.flatten.length := by simp only [curStart] at hcur; omega
+    obtain ⟨j, hj, hj1, hj2⟩ := r.chain.locate idx h1 hlt
+    have hsg := r.slotGe_rot idx j hj hj1 hj2
+    have hflen := r.chain.len
+    have hfj : ¬ j ≥ s.files.length := by rw [hflen]; omega
+    have htf := hp.table_fits
+    have hl := (r.chain.rep j hj).lenLe
+    obtain ⟨hc1, hc2⟩ := clearRot_nat p (idx - (a + pre ess j)) (by omega)
+    have hc1' : (decide (clearRotLen p ↑(idx - (a + pre ess j)) < 0) ||
+        (clearRotOff p ↑(idx - (a + pre ess j)) != ((entrySize * (idx - (a + pre ess j)) : Nat) : Int))) = false := by
+      simp only [Bool.or_eq_false_iff, decide_eq_false_iff_not, bne_eq_false_iff_eq]
+      constructor
+      · intro h; exact hc1 (Or.inl h)
+      · exact Classical.byContradiction fun h => hc1 (Or.inr h)
+    have hpush : ((entrySize : Int) * ((idx - (a + pre ess j) : Nat) : Int)) = ((entrySize * (idx - (a + pre ess j)) : Nat) : Int) := by
+      push_cast; rfl
+    -- the removals: the current file and the rotated files behind file j, newest first
+    have hrm : (s.files.drop (j + 1) ++ [s.current]).reverse.map (fun f => Mut.rmLast f.fid) =
+        ((s.files.drop (j + 1) ++ [s.current]).reverse).map (fun f => Mut.rmLast f.fid) := rfl
+    have hrlen : ((s.files.drop (j + 1) ++ [s.current]).reverse).length = s.files.length - j := by
+      simp only [List.length_reverse, List.length_append, List.length_drop, List.length_singleton]; omega
+    have hmuts : conflictMuts p s idx = ((s.files.drop (j + 1) ++ [s.current]).reverse).map (fun f => Mut.rmLast f.fid) ++
+        [.zero (s.files.getD j default).fid (idx - (a + pre ess j)) (clearRotLen p ↑(idx - (a + pre ess j))).toNat] := by
+      simp only [conflictMuts, hsg, hfj, if_false]
+      rw [hpush, hc1']; simp
+    have h0 : dropNewest s 0 = s := by simp [dropNewest]
+    have hafter : applyMuts p s (((s.files.drop (j + 1) ++ [s.current]).reverse).map (fun f => Mut.rmLast f.fid)) =
+        dropNewest s (s.files.length - j) := by
+      have := applyMuts_rmLast (p := p) s ((s.files.drop (j + 1) ++ [s.current]).reverse) 0 (by rw [hrlen]; omega)
+      rw [h0, hrlen, Nat.zero_add] at this
+      exact this
+    have hcf : SameDir (applyMuts p s (conflictMuts p s idx)) (conflict p s idx) := by
+      rw [hmuts, applyMuts_append, hafter]
+      have hk0 : s.files.length - j ≠ 0 := by omega
+      have hjj : s.files.length - (s.files.length - j) = j := by omega
+      simp only [applyMuts, List.foldl_cons, List.foldl_nil, applyMut, dropNewest, hk0, if_false, hjj, conflict, hsg, hfj]
+      rw [hpush, hc1']
+      exact ⟨rfl, rfl, rfl, rfl⟩
+    refine ⟨?_, hcf⟩
+    intro x hx
+    rw [hmuts] at hx
+    have hx' : x ∈ crashStates p (dropNewest s 0) (((s.files.drop (j + 1) ++ [s.current]).reverse).map (fun f => Mut.rmLast f.fid) ++
+        [.zero (s.files.getD j default).fid (idx - (a + pre ess j)) (clearRotLen p ↑(idx - (a + pre ess j))).toNat]) := by
+      rw [h0]; exact hx
+    have hstep : ∀ k, 1 ≤ k → k ≤ s.files.length - j →
+        ∃ M, idx - a ≤ M ∧ ∃ ess' ec', DirRep p (dropNewest s k) a ess' ec' ∧ ess'.flatten ++ ec' = (ess.flatten ++ ec).take M ∧
+          (dropNewest s k).mt = s.mt := by
+      intro k hk1 hk2
+      have hkl : k ≤ ess.length := by rw [← hflen]; omega
+      have hm : ess.length - k < ess.length := by omega
+      refine ⟨pre ess (ess.length - k + 1), ?_, _, _, r.dropNewest_rep k hk1 hkl, ?_, dropNewest_mt s k⟩
+      · have hmono := pre_mono ess (show j + 1 ≤ ess.length - k + 1 by rw [← hflen]; omega)
+        have := pre_succ ess j hj
+        omega
+      · rw [flatten_take_succ ess _ hm, flatten_take, List.take_append_of_le_length (pre_le_flatten ess _)]
+    rcases mem_crashStates_rmLast (p := p) s _ _ 0 (by rw [hrlen]; omega) x hx' with ⟨k, _, hk2, rfl⟩ | hx''
+    · by_cases hk0 : k = 0
+      · subst hk0; rw [h0]; exact hold
+      · exact hstep k (by omega) (by rw [hrlen] at hk2; omega)
+    · rw [hrlen, Nat.zero_add] at hx''
+      simp only [crashStates, safeTorn, List.nil_append, List.mem_cons, List.mem_nil_iff, or_false] at hx''
+      rcases hx'' with rfl | rfl
+      · exact hstep _ (by omega) (Nat.le_refl _)
+      · apply hfin
+        have := hcf
+        rw [hmuts, applyMuts_append, hafter] at this
+        simpa only [applyMuts, List.foldl_cons, List.foldl_nil] using this
 
 end OG.C17
